@@ -101,8 +101,9 @@ def summarise_e1(pid, cfg, tps, results, wall, extra_assumptions=()):
             if o["status"] in VIOLATION_STATUSES:
                 violations.append((r, o))
         # a template that REF accepts but a backend fails to compile with an internal error
+        ref_ok = all(v == "ok" for k, v in r.get("status", {}).items() if k.startswith("ref"))
         for be, st in r.get("status", {}).items():
-            if isinstance(st, str) and (st.startswith("error:") or st.startswith("parse-error:")):
+            if ref_ok and isinstance(st, str) and (st.startswith("error:") or st.startswith("parse-error:")):
                 violations.append((r, {"template": r["template"], "kind": f"build:{be}", "status": "violation", "detail": {"status": st}, "seconds": 0}))
     functions = sorted({f for r in results for f in r.get("functions", [])})
     constructs = sorted({c for r in results for c in r.get("constructs", [])})
